@@ -279,6 +279,14 @@ def _worker_init(x64: bool, counter=None):
             os.sched_setaffinity(0, {cpus[i % len(cpus)]})
         except Exception:
             pass
+    if counter is not None:
+        try:  # workers must not outlive a killed parent (orphans would keep burning CPU and memory): PR_SET_PDEATHSIG = 1
+            import ctypes
+            import signal
+
+            ctypes.CDLL("libc.so.6", use_errno=True).prctl(1, signal.SIGKILL)
+        except Exception:
+            pass
     os.environ.setdefault("JAX_PLATFORMS", "cpu")
     os.environ["XLA_FLAGS"] = (
         os.environ.get("XLA_FLAGS", "")
@@ -442,18 +450,35 @@ def run_units(prop: str, units, jobs: int, x64: bool = True, progress=True):
         for u in units:
             results.append(_run_unit((prop, u)))
         return results
+    from concurrent.futures.process import BrokenProcessPool
+
     ctx = mp.get_context("spawn")
-    counter = ctx.Value("i", 0)
-    with cf.ProcessPoolExecutor(
-        max_workers=min(jobs, len(units)), mp_context=ctx, initializer=_worker_init, initargs=(x64, counter)
-    ) as ex:
-        futs = [ex.submit(_run_unit, (prop, u)) for u in units]
-        done = 0
-        for f in cf.as_completed(futs):
-            results.append(f.result())
-            done += 1
-            if progress and (done % max(1, len(units) // 10) == 0 or done == len(units)):
-                print(f"  [{prop}] {done}/{len(units)} units", file=sys.stderr, flush=True)
+    pending = list(range(len(units)))
+    workers = min(jobs, len(units))
+    done = 0
+    attempts = 0
+    while pending:
+        counter = ctx.Value("i", 0)
+        finished = set()
+        try:
+            with cf.ProcessPoolExecutor(max_workers=workers, mp_context=ctx, initializer=_worker_init, initargs=(x64, counter)) as ex:
+                futs = {ex.submit(_run_unit, (prop, units[i])): i for i in pending}
+                for f in cf.as_completed(futs):
+                    results.append(f.result())
+                    finished.add(futs[f])
+                    done += 1
+                    if progress and (done % max(1, len(units) // 10) == 0 or done == len(units)):
+                        print(f"  [{prop}] {done}/{len(units)} units", file=sys.stderr, flush=True)
+            pending = []
+        except BrokenProcessPool:
+            # a worker was killed from outside (typically the kernel's OOM killer on a busy machine): this says nothing about the property.
+            # Keep what finished, run the rest again with half as many workers; give up (harness error, not a verdict) after three such failures.
+            pending = [i for i in pending if i not in finished]
+            attempts += 1
+            if attempts > 3:
+                raise
+            workers = max(1, workers // 2)
+            print(f"  [{prop}] a worker process was killed; re-running {len(pending)} unfinished units with {workers} workers", file=sys.stderr, flush=True)
     return results
 
 
